@@ -31,6 +31,7 @@ type implQ struct {
 
 type Engine struct {
 	opts           Options
+	defOnlyUsed    map[string]bool // callees used through a purely definitional contract (body not verified)
 	view           string // named view whose clauses are switched on (VerifyFuncView)
 	Prog           *ssa.Program
 	Pkgs           []*packages.Package
@@ -682,6 +683,16 @@ func (e *Engine) FuncsForProperty(prop string) []*ssa.Function {
 				}
 				if callee := ci.Common().StaticCallee(); callee != nil {
 					if fc := e.funcC[callee]; fc != nil && e.contractUsable(fc) {
+						if definitionalOnly(fc) && e.inferPure(callee) {
+							// nothing to prove about the body beyond purity, which has
+							// just been checked: `result == spec(args)` only names the
+							// function's (deterministic) result
+							if e.defOnlyUsed == nil {
+								e.defOnlyUsed = map[string]bool{}
+							}
+							e.defOnlyUsed[funcDisplayName(callee)] = true
+							continue
+						}
 						add(callee)
 					}
 				}
@@ -694,6 +705,23 @@ func (e *Engine) FuncsForProperty(prop string) []*ssa.Function {
 	}
 	sort.Slice(out, func(i, j int) bool { return out[i].String() < out[j].String() })
 	return out
+}
+
+// definitionalOnly: the contract says nothing but "pure" and "the result is
+// this uninterpreted function of the arguments".
+func definitionalOnly(fc *FuncC) bool {
+	if !fc.Pure || fc.AssumePure || len(fc.Requires) > 0 || len(fc.Loops) > 0 || len(fc.Callsites) > 0 || fc.NoSwallow || fc.Cancellable || fc.LockBalanced || len(fc.Ghosts) > 0 {
+		return false
+	}
+	if len(fc.Ensures) == 0 {
+		return false
+	}
+	for _, c := range fc.Ensures {
+		if c.Kind != "defines" {
+			return false
+		}
+	}
+	return true
 }
 
 // ---------------------------------------------------------------------------
